@@ -565,6 +565,63 @@ def copied_owners(facts, res, R="C15.6.copied-owner"):
     return n
 
 
+def probe_bounds(facts, res):
+    """C15.10: in the in-group lookups a header record is read at a position that is known to be inside the group: the result of the
+    binary search over [0, count) after the `== count` exit, or - for a position computed from the query (a direct-offset fast path) -
+    under both a lower-bound and an upper-bound test on the same path.  `p < count` alone lets a query below the group's first index
+    read before the block."""
+    import c16
+    R = "C15.10.probe-bounds"
+    n = 0
+    for cls, name, cnt in c16.INGROUP:
+        ms = [m for m in facts.methods_of(cls) if m["name"] == name and tbf.body(m) is not None and not m.get("inst")]
+        if len(ms) != 1:
+            raise AnalysisBroken("%s::%s not found" % (cls, name))
+        fn = ms[0]
+        b = tbf.body(fn)
+        tbf.link_parents(b)
+        lk = c16._Look(facts, fn)
+        f = tbf.rel(facts.path_of(fn))
+        for call in walk(b, into_lambdas=False):
+            if call.get("k") not in ("CallExpr", "CXXMemberCallExpr") or tbf.callee_name(call) != "getItem" or len(tbf.call_args(call)) != 1:
+                continue
+            arg = strip(tbf.call_args(call)[0])
+            init = lk.local_init(arg) if arg.get("k") == "DeclRefExpr" else None
+            i0 = strip(init) if init is not None else None
+            n += 1
+            if i0 is not None and i0.get("k") in ("CallExpr", "CXXMemberCallExpr") and tbf.callee_name(i0) == "lower_bound_indexes":
+                res.instance(R, "%s::%s getItem(%s)@%d" % (cls, name, arg.get("name"), call["l"][1]), facts.loc(call), "position = result of the binary search")
+                continue          # C16.1 requires the `== count` exit before it is used, C16.4 that the search stays inside its range
+            pd = lk.desc(arg)
+            fx = list(c16._path_facts(lk, call))
+            # earlier conjuncts of the condition the probe sits in
+            cond = None
+            for a in tbf.ancestors(call):
+                if a.get("k") in ("IfStmt", "WhileStmt"):
+                    c0 = a["c"][0]
+                    if any(y is call for y in walk(c0)):
+                        cond = c0
+                    break
+            if cond is not None:
+                for part in c16._conjuncts(cond):
+                    if any(y is call for y in walk(part)):
+                        break
+                    fx += c16._facts_of(lk, part)
+            upper = any(r[0] == "lt" and r[1] == pd for r in fx) or any(r[0] == "ne" and pd in r[1:] and any(cnt in x for x in r[1:]) for r in fx)
+            lower = any(r[0] == "le" and r[1] in ("0",) and r[2] == pd for r in fx) or any(r[0] == "lt" and r[1] in ("-1",) and r[2] == pd for r in fx)
+            m = re.match(r"^\((.+)-(.+)\)$", pd)
+            if m and not lower:
+                lower = ("le", m.group(2), m.group(1)) in fx or ("lt", m.group(2), m.group(1)) in fx
+            res.instance(R, "%s::%s getItem(%s)@%d" % (cls, name, facts.ntext(arg)[:30], call["l"][1]), facts.loc(call), "computed position `%s`: lower bound tested %s, upper bound tested %s" % (pd[:60], lower, upper))
+            if not lower or not upper:
+                res.violation(R, f, fn["qname"], "probe:%s@%d" % (facts.ntext(arg)[:30], call["l"][1]), call["l"][1],
+                              "the header record at the computed position `%s` is read %s: %s" % (
+                                  pd[:80], "without a lower-bound test" if not lower else "without an upper-bound test",
+                                  "a query below the group's first index gives a negative position and the read leaves the block (out-of-bounds read; a chance match returns a negative position)" if not lower else "a query beyond the group reads past its last record"))
+    res.floor(R, n, 3, "header reads in the in-group lookups")
+
+
+
 def run(res, tier):
     facts = tbf.scan("core")
     res.units.append("umbrella TU 'core': OpenMP executors (CreateNew), rotation/uniform kernels + TbfPeriodicShifter, TbfMemoryBlock, wrapper/top-tree fill idioms")
@@ -629,6 +686,8 @@ def run(res, tier):
     for v in sub9.violations:
         res.violation("C15.9.guarded-probes", v["file"], v["function"], v["key"], v["line"], v["msg"])
     res.instance("C15.9.guarded-probes", "group wrapper", "src/algorithms/sequential/tbfgroupkernelinterface.hpp", "%d conditions reading a cell at a running position" % len([i for i in sub9.instances if " probe@" in i["key"]]))
+    res.rule("C15.10 in the in-group lookups a header record is read only at the binary search's result (after its `== count` exit) or at a computed position tested against both bounds on the same path")
+    probe_bounds(facts, res)
     res.rule("C15.5 a member that stores the address of an element of a container member is reset by every member function that clears / refills / reallocates that container")
     np_, nc_ = member_pointers_into_containers(facts, res)
     res.instance("C15.5.member-pointer-lifetime", "classes of src/core and src/algorithms", "umbrella 'core'", "%d classes with pointer-typed members examined, %d members hold addresses of container elements" % (nc_, np_))
